@@ -144,4 +144,57 @@ theorem fetchOp_spec {cl : Cluster} (hi : CInvs cl) (c : Nat) (nowC nowS : Time)
           exact .fresh _ (hhome.trans ha) rfl rfl rfl hlive
             (by intro ht t hm; rw [ht, hts]; simp only [if_true]; exact hm)
 
+theorem aFetch_not_notFound (s : State) (now : Time) (k : Key) (t : Bool) (cur : Option Gen)
+    {v : Val} {ts : List Key} {d : Time} {g : Gen} (h : (C07.step s (.fetch now k)).2 = .hit v ts d g) :
+    (aFetch s now k t cur).2 ≠ .notFound ∧ (cur = none → (aFetch s now k t cur).2 ≠ .upToDate) := by
+  unfold aFetch
+  rcases hst : C07.step s (.fetch now k) with ⟨s', o⟩
+  rw [hst] at h
+  simp only at h
+  subst h
+  simp only
+  constructor
+  · split <;> simp
+  · intro hc; subst hc; simp
+
+/-- if the responsible server finds the key, so does the node — whatever its L1 holds -/
+theorem fetchOp_hits (cl : Cluster) (c : Nat) (nowC nowS : Time) (k : Key) (tags : Bool) (s : State)
+    (hs : cl.servers[shard cl.servers.length k]? = some s)
+    {v : Val} {ts : List Key} {d : Time} {g : Gen} (h : (C07.step s (.fetch nowS k)).2 = .hit v ts d g) :
+    ∃ v' ts' d' g', (fetchOp absT cl c nowC nowS k tags).2 = .hit v' ts' d' g' := by
+  unfold fetchOp
+  simp only [absT, hs]
+  cases hl : cl.l1 c with
+  | none =>
+    simp only
+    have hn := (aFetch_not_notFound s nowS k tags none h)
+    rcases hr : aFetch s nowS k tags none with ⟨s', r⟩
+    rw [hr] at hn
+    cases r with
+    | upToDate => exact absurd rfl (hn.2 rfl)
+    | notFound => exact absurd rfl hn.1
+    | found v' ts' d' g' => exact ⟨v', ts', d', g', rfl⟩
+  | some l =>
+    simp only
+    rcases hlf : C07.step l (.fetch nowC k) with ⟨l1, lo⟩
+    cases lo with
+    | hit vL tL dL gL =>
+      simp only
+      have hn := (aFetch_not_notFound s nowS k true (some gL) h)
+      rcases hr : aFetch s nowS k true (some gL) with ⟨s', r⟩
+      rw [hr] at hn
+      cases r with
+      | upToDate => exact ⟨_, _, _, _, rfl⟩
+      | notFound => exact absurd rfl hn.1
+      | found v' ts' d' g' => exact ⟨_, _, _, _, rfl⟩
+    | _ =>
+      simp only
+      have hn := (aFetch_not_notFound s nowS k true none h)
+      rcases hr : aFetch s nowS k true none with ⟨s', r⟩
+      rw [hr] at hn
+      cases r with
+      | upToDate => exact absurd rfl (hn.2 rfl)
+      | notFound => exact absurd rfl hn.1
+      | found v' ts' d' g' => exact ⟨_, _, _, _, rfl⟩
+
 end Cppcms.C10
